@@ -43,7 +43,7 @@ func main() {
 	installHooks()
 	sc := bufio.NewScanner(fi)
 	sc.Buffer(make([]byte, 1<<20), 1<<26)
-	n := 0
+	n, ran := 0, 0
 	for sc.Scan() {
 		line := sc.Bytes()
 		if len(line) == 0 {
@@ -58,6 +58,13 @@ func main() {
 			fmt.Fprintf(os.Stderr, "scenario %d: %v\n", n, err)
 			os.Exit(2)
 		}
+		if s.Cfg.num("fresh_process", 0) == 1 && ran > 0 {
+			// this scenario needs a process that has done nothing yet (process-wide lazily created state)
+			tr.Flush()
+			fo.Close()
+			os.Exit(4)
+		}
+		ran++
 		runScenario(tr, &s, n)
 		tr.Flush()
 	}
